@@ -96,6 +96,13 @@ func (i *ident) Frag(ctx context.Context) iter.Seq[string] {
 		case string:
 			ref, err := gengotypes.ParseRef(x)
 			if err != nil {
+				if t, e := gengotypes.ParseTypeRef(x); e == nil && len(t.TypeList) > 0 {
+					// path-less generic reference: package paths nested in its type arguments still need rewriting
+					if !yield(d.Name(gengotypes.Ref("", x))) {
+						return
+					}
+					return
+				}
 				if !yield(x) {
 					return
 				}
